@@ -5,8 +5,13 @@ go 1.13
 require (
 	github.com/BurntSushi/toml v0.3.0
 	github.com/Logicalis/asn1 v0.0.0-20160307192209-c9c836c1a3cd
+	github.com/dutchcoders/gobus v0.0.0-20180915095724-ece5a7810d96
+	github.com/go-asn1-ber/asn1-ber v0.0.0-20170511165959-379148ca0225
 	github.com/honeytrap/honeytrap v0.0.0
+	github.com/miekg/dns v1.0.4
+	github.com/mimoo/disco v0.0.0-20180114190844-15dd4b8476c9
 	github.com/op/go-logging v0.0.0-20160211212156-b2cb9fa56473
+	golang.org/x/crypto v0.0.0-20200128174031-69ecbb4d6d5d
 	golang.org/x/time v0.0.0-20191024005414-555d28b269f0
 )
 
